@@ -826,7 +826,7 @@ func ruleF7b(c *Ctx) *RuleResult {
 		n++
 		key := fmt.Sprintf("%s|low-latency-entry#%d", FuncName(fn), n)
 		what := "runLowLatency is entered only if CAN-BLOCK-RELOAD is advertised"
-		conds := ifsOn(fn, func(v ssa.Value) bool { f, _ := loadedField(v); return f == cbr })
+		conds := ifsOnV(fn, func(v ssa.Value) bool { f, _ := loadedField(v); return f == cbr })
 		if len(conds) > 0 && onlyIf(fn, call, conds, true) {
 			r.ok(key, c.Pos(call.Pos()), FuncName(fn), what, "control dependent on ServerControl.CanBlockReload")
 		} else {
@@ -1025,7 +1025,7 @@ func ruleG11b(c *Ctx) *RuleResult {
 				n++
 				key := fmt.Sprintf("Muxer.Start|%s-audio-only#%d", phi.Comment, n)
 				what := "the flag is set only for a track that is not a video track"
-				vc := ifsOn(start, func(v ssa.Value) bool {
+				vc := ifsOnV(start, func(v ssa.Value) bool {
 					call, ok := v.(*ssa.Call)
 					return ok && call.Call.StaticCallee() == isVid && h.Dominates(call.Block())
 				})
